@@ -92,4 +92,5 @@ def main():
                       "deviation-on runs; traces: random bounded-future formulas depth<=4, parse/pastify/update, every return after the "
                       "horizon compared with Sig(original, prefix)[k-h]")
 
-core.main(main)
+if __name__ == "__main__":
+    core.main(main)
